@@ -137,6 +137,15 @@ def make_case(rng, i):
                 if rng.random() < 0.5:
                     op_['dt_via'] = rng.choice([u for u in SI.units('TimeInterval') if u != op_['dt']['u']])
         info['converted_in_place'] = True
+    if i % 9 == 8:
+        # a first attempt that fails inside its first instant (the load function forgot the unit -> TypeError), then the load is
+        # corrected: whether the library regards the next call as fresh or as continued from time 0, the axis is 0, dt, ..., T
+        # (after an earlier study and a reset: on a never-simulated model the library cannot take up work after such a failure at
+        # all -- it raises TypeError on a None acceleration --, which no property covers)
+        good = dict(spec['load'])
+        sched = [{'op': 'run', 'dt': dt, 'T': T}, {'op': 'reset'}, {'op': 'reapply'}, {'op': 'setload', 'load': dict(good, bare=True)},
+                 {'op': 'failrun', 'dt': dt, 'T': T}, {'op': 'setload', 'load': good}] + sched
+        info['failed_first_attempt'] = True
     spec['schedule'] = sched
     return spec, info
 
@@ -205,6 +214,11 @@ def one(ctx, i):
         ctx.count('overrun_prone_pairs')
     if info.get('converted_in_place'):
         ctx.count('durations_converted_in_place')
+    if info.get('failed_first_attempt'):
+        ctx.count('runs_after_a_failed_first_attempt')
+        if getattr(b, 'failrun_outcome', None) != 'TypeError':
+            ctx.violation('C11:unitless-load-not-rejected-with-TypeError', {'outcome': getattr(b, 'failrun_outcome', None)}, case)
+            return
     if info.get('unit_change'):
         ctx.count('unit_change_continuations')
     if info['kind'] == 'stopped-then-continued':
